@@ -8,7 +8,7 @@ from __future__ import annotations
 from abc import ABCMeta, abstractmethod
 from enum import Enum
 from functools import partial
-from typing import TYPE_CHECKING, Callable, Sequence, Union, cast
+from typing import TYPE_CHECKING, Callable, Generator, Sequence, Union, cast
 
 from prompt_toolkit.application.current import get_app
 from prompt_toolkit.cache import SimpleCache
@@ -231,6 +231,47 @@ class _Split(Container):
         return self.children
 
 
+def _child_generators(
+    dimensions: list[Dimension],
+) -> list[tuple[list[int], Generator[int, None, None]]]:
+    """
+    Generators that tell which child of a split gets the next row/column: first
+    the children with a positive weight (in proportion to their weight), then
+    the children with a weight of zero (all equal). The latter only receive
+    the space that the weighted children are not able to take.
+    """
+    weights = [d.weight for d in dimensions]
+    groups = [
+        [i for i, w in enumerate(weights) if w > 0],
+        [i for i, w in enumerate(weights) if w == 0],
+    ]
+    return [
+        (group, take_using_weights(group, [weights[i] or 1 for i in group]))
+        for group in groups
+        if group
+    ]
+
+
+def _grow_sizes(
+    sizes: list[int],
+    limits: list[int],
+    stop: int,
+    child_generators: list[tuple[list[int], Generator[int, None, None]]],
+) -> None:
+    """
+    Increase `sizes` (in place) step by step, without exceeding `limits`,
+    until their sum reaches `stop`.
+    """
+    for group, generator in child_generators:
+        # Never wait for children that can't grow any further.
+        group_stop = min(stop, sum(sizes) + sum(limits[i] - sizes[i] for i in group))
+
+        while sum(sizes) < group_stop:
+            i = next(generator)
+            if sizes[i] < limits[i]:
+                sizes[i] += 1
+
+
 class HSplit(_Split):
     """
     Several layouts, one stacked above/under the other. ::
@@ -441,30 +482,18 @@ class HSplit(_Split):
         # the whole height.)
         sizes = [d.min for d in dimensions]
 
-        child_generator = take_using_weights(
-            items=list(range(len(dimensions))), weights=[d.weight for d in dimensions]
-        )
-
-        i = next(child_generator)
+        child_generators = _child_generators(dimensions)
 
         # Increase until we meet at least the 'preferred' size.
         preferred_stop = min(height, sum_dimensions.preferred)
         preferred_dimensions = [d.preferred for d in dimensions]
-
-        while sum(sizes) < preferred_stop:
-            if sizes[i] < preferred_dimensions[i]:
-                sizes[i] += 1
-            i = next(child_generator)
+        _grow_sizes(sizes, preferred_dimensions, preferred_stop, child_generators)
 
         # Increase until we use all the available space. (or until "max")
         if not get_app().is_done:
             max_stop = min(height, sum_dimensions.max)
             max_dimensions = [d.max for d in dimensions]
-
-            while sum(sizes) < max_stop:
-                if sizes[i] < max_dimensions[i]:
-                    sizes[i] += 1
-                i = next(child_generator)
+            _grow_sizes(sizes, max_dimensions, max_stop, child_generators)
 
         return sizes
 
@@ -636,28 +665,16 @@ class VSplit(_Split):
         # the whole width.)
         sizes = [d.min for d in dimensions]
 
-        child_generator = take_using_weights(
-            items=list(range(len(dimensions))), weights=[d.weight for d in dimensions]
-        )
-
-        i = next(child_generator)
+        child_generators = _child_generators(dimensions)
 
         # Increase until we meet at least the 'preferred' size.
         preferred_stop = min(width, sum_dimensions.preferred)
-
-        while sum(sizes) < preferred_stop:
-            if sizes[i] < preferred_dimensions[i]:
-                sizes[i] += 1
-            i = next(child_generator)
+        _grow_sizes(sizes, preferred_dimensions, preferred_stop, child_generators)
 
         # Increase until we use all the available space.
         max_dimensions = [d.max for d in dimensions]
         max_stop = min(width, sum_dimensions.max)
-
-        while sum(sizes) < max_stop:
-            if sizes[i] < max_dimensions[i]:
-                sizes[i] += 1
-            i = next(child_generator)
+        _grow_sizes(sizes, max_dimensions, max_stop, child_generators)
 
         return sizes
 
